@@ -520,7 +520,7 @@ def direction(run, f, det):
     for blk in b.blocks:
         if blk.term["k"] == "switch":
             s = strip_wrappers(tr.norm(tr.operand_at(blk.idx, blk.term["discr"])))
-            if s == ("call", hp, det.hp_def):
+            if s[0] == "call" and s[1] == hp:        # the result of the cycle-test call (whatever path names the callee)
                 t = blk.term
                 true_t = [tgt for v, tgt in t["arms"] if int(v) != 0] or [t["otherwise"]]
                 if all(int(v) == 0 for v, _ in t["arms"]):
